@@ -285,7 +285,7 @@ def m_from_residual(c, call, r):
     F, E = _result_err_types(call.callee)
     if F is not None and E is not None and strip_angle(F).strip() != strip_angle(E).strip():
         tgt = last_seg(strip_angle(F).strip()); srcn = last_seg(strip_angle(E).strip())
-        hit = c.find_from_impl(tgt, srcn)
+        hit = c.find_from_impl(tgt, srcn, E)
         if hit is not None:
             return Err(c.run_compiled(hit, [e]))
         return Err(Opaque('converted-error', (tgt, srcn, e)))
@@ -1237,7 +1237,7 @@ def m_log(c, call, *a):
 @reg('PartialOrd::le', 'PartialOrd::lt', 'PartialOrd::ge', 'PartialOrd::gt')
 def m_partial_ord(c, call, a, b):
     a = deref(a); b = deref(b)
-    if isinstance(a, (Opaque, EnumV)) or isinstance(b, (Opaque, EnumV)):
+    if isinstance(a, (Opaque, EnumV, StructV)) or isinstance(b, (Opaque, EnumV, StructV)):
         return FALSE      # log level comparison: logging disabled
     raise Unsupported('PartialOrd on ' + type(a).__name__)
 
